@@ -1,6 +1,7 @@
 package main
 
 import (
+	"math"
 	"bytes"
 	"encoding/json"
 	"fmt"
@@ -224,7 +225,7 @@ func genOp(g *gen.G, m *ref.Msg, kind string) prodOp {
 		op := prodOp{Kind: "session"}
 		switch r.Intn(6) {
 		case 0:
-			op.Session = r.PickInt([]int{-2, -1, 65536, 65535, 0, 1 << 20, -65536})
+			op.Session = r.PickInt([]int{-2, -1, 65536, 65535, 0, 1 << 20, -65536, 1 << 32, 1<<32 + 7, 1<<32 - 1, 1<<32 - 2, math.MaxInt64, math.MinInt64, -(1 << 32), 1<<48 + 258, 1 << 31, 1<<16 + 1<<32})
 		default:
 			op.Session = r.Intn(65536)
 		}
